@@ -57,6 +57,8 @@ def run(prog, chk):
     chk.rule(strops.check_for, prog, chk, "C19")  # A14.str-ops: how this property's strings are cut up is a reviewed, frozen inventory
     from props import C04 as _C04b
     chk.rule(_C04b.consumed, prog, chk)  # the generated text element keeps the presentation attributes and transform of a <text> carrier: nothing standard is consumed outside the reviewed places
+    from props import geomalg as _ga
+    chk.rule(_ga.check_extent_seeds, prog, chk)  # the box a label is anchored to is the box of the points as written
 
 
 def carriers(prog, chk):
